@@ -6,8 +6,8 @@ import Bng.Model.PppAuth
 
     new pap|chap|other radius|noradius                                  => ok
     start | reauth | age <seconds> | setid <n>
-    pap  <id> u<k> good|bad|empty       accept|reject|down|verify
-    chap <id> u<k> match|nomatch|short  accept|reject|down|verify
+    pap  <id> u<k> good|bad|empty       accept|reject|down|challenge|verify
+    chap <id> u<k> match|nomatch|short  accept|reject|down|challenge|verify
          => ret=ok|err sent=<packets|-> state=<None|Pending|Success|Failure> user=<u<k>|-> cb=<PAP+|PAP-|CHAP+|CHAP-|-> rad=<requests|->
 -/
 namespace Bng.Drv.PppAuthDrv
@@ -52,6 +52,7 @@ def showObs (a : Auth) (o : Obs) : String :=
 
 def parseRadius : String → Option Radius
   | "accept" => some .accept | "reject" => some .reject | "down" => some .down | "verify" => some .verify
+  | "challenge" => some .challenge
   | _ => none
 
 def parseOp (toks : List String) : Option Op :=
